@@ -1,25 +1,43 @@
 #!/venv/bin/python
-"""Run every seeded change under /verif/seeded against the check of its property; write seeded/RESULTS.md."""
-import json, os, subprocess, sys
+"""Run every seeded change under /verif/seeded against the quick check of its property (3 at a time); write seeded/RESULTS.md.
+usage: tools/seedsweep.py [prefix ...]   (e.g. C01 C02; default all)"""
+import concurrent.futures, json, os, subprocess, sys
 V = os.path.dirname(os.path.dirname(os.path.abspath(__file__)))
 only = sys.argv[1:]
-rows = []
-for name in sorted(os.listdir(os.path.join(V, 'seeded'))):
+names = [n for n in sorted(os.listdir(os.path.join(V, 'seeded'))) if os.path.isdir(os.path.join(V, 'seeded', n))
+         and (not only or any(n.startswith(o) for o in only))]
+
+
+def one(name):
     d = os.path.join(V, 'seeded', name)
-    if not os.path.isdir(d) or (only and not any(name.startswith(o) for o in only)):
-        continue
     meta = json.load(open(os.path.join(d, 'meta.json')))
     prop = meta['property']
+    env = dict(os.environ, VERIF_WORKERS='6')
     r = subprocess.run([os.path.join(V, 'tools', 'mutate.py'), '--patch', os.path.join(d, 'patch.diff'), '--demo', os.path.join(d, 'demo.py'), '--tests', prop],
-                       capture_output=True, text=True)
+                       capture_output=True, text=True, env=env)
     out = r.stdout
     get = lambda tag: next((l for l in out.splitlines() if l.startswith(tag)), tag + ' ?')
-    chk = get('CHECK')
     sig = next((l.strip() for l in out.splitlines() if l.strip().startswith('sig=')), '')
-    rows.append((name, get('DEMO (clean)')[14:22], get('DEMO (changed)')[16:24], get('SUITE')[24:60], chk, sig[:110]))
-    print(rows[-1], flush=True)
-with open(os.path.join(V, 'seeded', 'RESULTS.md'), 'a' if only else 'w') as f:
-    if not only:
-        f.write('# Seeded changes vs. checks (tools/seedsweep.py)\n\n| change | demo clean | demo changed | suite with change | check | first signature |\n|---|---|---|---|---|---|\n')
-    for r in rows:
-        f.write('| ' + ' | '.join(r) + ' |\n')
+    chk = get('CHECK')
+    verdict = 'caught' if 'exit=1' in chk else ('HARNESS-ERROR' if 'exit=2' in chk else ('missed' if 'exit=0' in chk else 'not run: ' + (r.stderr or out)[-80:]))
+    summ = (meta.get('summary') or meta.get('what') or '')
+    return (name, ' '.join(str(summ).split())[:140], get('DEMO (clean)')[14:21], get('DEMO (changed)')[16:23], get('SUITE')[31:41], verdict,
+            sig.split('  ')[0][4:90], str(meta.get('check_result', ''))[:160])
+
+
+with concurrent.futures.ThreadPoolExecutor(3) as ex:
+    rows = list(ex.map(one, names))
+for r in rows:
+    print(r[0], r[5], flush=True)
+if not only:
+    with open(os.path.join(V, 'seeded', 'RESULTS.md'), 'w') as f:
+        f.write('# Seeded changes vs. checks\n\nProduced by `tools/seedsweep.py`: every stored change is applied to a scratch copy of /repo HEAD; demo before/after, '
+                'the 133-test suite with the change, and the quick check of its property against the changed copy. "first evaluation" is what the check said when the '
+                'change was first tried (before any strengthening).\n\n'
+                '| change | what was changed | demo clean | demo changed | suite | check now | signature reported | first evaluation |\n|---|---|---|---|---|---|---|---|\n')
+        for r in rows:
+            f.write('| ' + ' | '.join(x.replace('|', '/') for x in r) + ' |\n')
+        n = len(rows)
+        c = sum(1 for r in rows if r[5] == 'caught')
+        f.write('\n%d changes, %d caught by the current checks.\n' % (n, c))
+print('caught %d of %d' % (sum(1 for r in rows if r[5] == 'caught'), len(rows)))
